@@ -439,5 +439,6 @@ pub fn run_c07(a: &Args) {
         }
         cases.push(case_of(&o, why, format!("lat{}:{}:{}", ((l1 + l2 + l3) / 16_000).min(9), match (bad_at, timeout_at) { (None, _) => "all-echoed".to_string(), (Some(_), Some(_)) => format!("{bad_kind:?}-timeout"), (Some(_), None) => format!("{bad_kind:?}-routed-first") }, reach(&o))));
     }
+    cases.extend(crate::byterun::cancelled_keepalive_cases(&mut rng, (a.cases / 40).clamp(8, 400)));
     finish("c07", a, cases);
 }
